@@ -204,7 +204,7 @@ def _rowwise(chc, canon, arr):
             'rows_differing': int(len(rows))}
 
 
-def _row_independence(chc, canon, seed):
+def _row_independence(chc, canon, seed, big_n=0):
     """shuffled all-codes array, singletons, small arrays with repeats, the empty array; minimised failing array."""
     import numpy as np
     rng = np.random.default_rng(seed)
@@ -213,10 +213,18 @@ def _row_independence(chc, canon, seed):
     small = [[int(c)] for c in rng.integers(0, NCODES, 24)] + [[int(c) for c in rng.integers(0, NCODES, n)]
                                                                for n in (2, 3, 5, 8, 13, 100)]
     small += [[c, c] for c in (0, NCODES - 1)] + [[]]
-    for arr in [perm] + small:
+    arrays = [perm] + small
+    if big_n:
+        # a halo file far larger than the code space (the column of a big superslab): whatever the decoder does with its
+        # working memory for long inputs, row i is still the triad of code i
+        arrays.append(np.random.default_rng(seed + 1).integers(0, NCODES, big_n).astype(np.uint16))
+    for arr in arrays:
         tried += 1
         bad = _rowwise(chc, canon, arr)
         if bad is None:
+            continue
+        if len(arr) > 2 * NCODES:
+            fails.append({'codes': {'big_n': int(len(arr)), 'seed': int(seed + 1)}, 'observed': bad})
             continue
         arr = [int(c) for c in arr]
         if len(arr) > 16:  # minimise: the offending code alone, with one partner per cap, then a short window around it
@@ -230,7 +238,7 @@ def _row_independence(chc, canon, seed):
                     arr, bad = cand, b2
                     break
         fails.append({'codes': arr if len(arr) <= 64 else {'permutation_seed': seed, 'length': len(arr)}, 'observed': bad})
-    fails.sort(key=lambda f: len(f['codes']) if isinstance(f['codes'], list) else 10 ** 9)
+    fails.sort(key=lambda f: len(f['codes']) if isinstance(f['codes'], list) else 10 ** 9 + f['codes'].get('big_n', 0))
     return tried, fails[:3]
 
 
@@ -275,7 +283,7 @@ def impl_all(payload):
         out['min_major_separation'] = float(d2[:, 1].min())
     except Exception as e:  # noqa: BLE001
         out['notes'].append('kd-tree statistics skipped: ' + repr(e)[:100])
-    out['row_runs'], out['row_fails'] = _row_independence(chc, T, payload.get('seed', 0))
+    out['row_runs'], out['row_fails'] = _row_independence(chc, T, payload.get('seed', 0), payload.get('big_n', 0))
     out['coverage'] = _coverage(major[finite], payload.get('grid_step_deg', 1.0)) if finite.any() else {}
     # ---- what the implementation computed as the integer decomposition (frame locals at return)
     dec = None
@@ -331,7 +339,9 @@ def impl_some(payload):
     from abacusnbody.data import compaso_halo_catalog as chc
     if payload.get('rowwise'):
         codes = payload['codes']
-        if isinstance(codes, dict):
+        if isinstance(codes, dict) and 'big_n' in codes:
+            codes = np.random.default_rng(codes['seed']).integers(0, NCODES, codes['big_n']).astype(np.uint16)
+        elif isinstance(codes, dict):
             codes = np.random.default_rng(codes['permutation_seed']).permutation(NCODES)
         with np.errstate(all='ignore'):
             canon = np.concatenate([np.asarray(a, dtype=np.float64) for a in
@@ -506,7 +516,9 @@ def explore(ctx):
     spot_codes = _spot_codes(ctx)
     src = _py_source(ctx)
     r = ctx.run_impl('harness.c18', 'impl_all', {'py_source': src, 'spot_codes': spot_codes, 'seed': ctx.seed,
-                                                 'grid_step_deg': 1.0 if ctx.quick() else 0.5})
+                                                 'grid_step_deg': 1.0 if ctx.quick() else 0.5,
+                                                 # a long column: 2^23 + 2^19 rows (about 20 s and 3 GB)
+                                                 'big_n': (1 << 23) + (1 << 19)})
     counterexamples, mismatches, notes = [], [], list(r.get('notes', []))
     if 'crash' in r:
         counterexamples.append({
@@ -532,7 +544,8 @@ def explore(ctx):
     for f in r.get('row_fails', [])[:2]:
         cs = f['codes']
         counterexamples.append({
-            'key': 'euler16:rowwise:codes=' + (','.join(str(c) for c in cs) if isinstance(cs, list) else f"perm{cs['permutation_seed']}"),
+            'key': 'euler16:rowwise:codes=' + (','.join(str(c) for c in cs) if isinstance(cs, list) else
+                                               f"big{cs['big_n']}" if 'big_n' in cs else f"perm{cs['permutation_seed']}"),
             'what': 'decoding an array is not row-wise: a row differs from the decode of its code alone / in the sorted '
                     'all-codes array (or the call raises)',
             'input': {'codes': cs}, 'impl_result': f['observed'], 'expected': 'each row = the triad of its own code',
